@@ -499,6 +499,24 @@ def jobs_C14(tier):
                 for P in (1, 2):
                     if not q or p == 'd':
                         j += fjob(p, 'fill', mat, drv, P)
+    # refactorization inside a user workspace (added after seeded change C14/3 was missed):
+    #  - refact-lwork (mchist --lwsweep): first factorization with one thread into a workspace of EVERY size (steps of 8 bytes), then re-factorizations with 2-3 threads
+    #    and new values in the same workspace, default and tight sp_ienv(7)/(8); workers inline
+    for p in ('d' if q else 'sdcz'):
+        for pat in ((0, 3) if q else (0, 1, 2, 3)):
+            for tight in (0, 1):
+                for i in range(2 if q else 8):
+                    j.append({'engine': 'mchist/mchist.c', 'variant': 'q', 'prec': p, 'args': ['--prop', 'C14', '--lwsweep', '1', '--tight', str(tight), '--pat', str(pat), '--slice', '%d/%d' % (i, 2 if q else 8)]})
+    #  - K17 (Engine S): tight estimates, workspace = smallest size that serves ONE worker + 64*k bytes; every interleaving (bound 1) of the re-factorization with P workers
+    for k in (range(0, 4) if q else range(0, 13)):
+        j.append(sjob('C14', 'dense4', 2, 1, refact=1, vk=1, vk2=8, usepr=1, ms=4, lwrel=k))
+        if k < 3 or not q:
+            j.append(sjob('C14', 'two6', 2, 1, refact=1, vk=1, vk2=0, usepr=0, lwrel=k))
+    for k in ((0, 3) if q else (0, 1, 2, 3, 5, 8)):
+        j.append(sjob('C14', 'tree7', 3, 1, refact=1, vk=1, vk2=0, usepr=0, lwrel=k))
+    if not q:
+        for k in (0, 2, 4):
+            j.append(sjob('C14', 'lower5', 2, 2, refact=1, vk=1, vk2=8, usepr=1, w=4, ms=4, lwrel=k)); j.append(sjob('C14', 'dense4', 2, 1, prec='z', refact=1, vk=1, vk2=8, usepr=1, ms=4, lwrel=k))
     # the recovery path after ONE failing allocation with estimates that are tight after the library's halving (added after seeded change C09/2 was missed)
     for p in ('d' if q else 'sdcz'):
         for mat in ((4, 0) if q else (0, 1, 2, 3, 4)):
